@@ -235,4 +235,29 @@ def signedVol3 (x : Fin 4 → Vec 3) : Rat :=
 /-- leading principal minors (Sylvester's criterion) -/
 def minor2 {n : Nat} (K : Mat n n) (i j : Fin n) : Rat := K i i * K j j - K i j * K i j
 
+/-- the RT0 field `Σ_j t_j (x − x_j)` (i.e. `d·V·Σ_j t_j φ_j`) evaluated at vertex `i` -/
+def rt0Field {d : Nat} (x : Fin (d + 1) → Vec d) (t : Vec (d + 1)) (i : Fin (d + 1)) : Vec d :=
+  fun a => sumFin (d + 1) fun j => t j * (x i a - x j a)
+
+/-! ### concrete data for the non-vacuity examples -/
+
+def vec1 (a : Rat) : Vec 1 := fun _ => a
+def vec2 (a b : Rat) : Vec 2 := fun i => match i.val with | 0 => a | _ => b
+def vec3 (a b c : Rat) : Vec 3 := fun i => match i.val with | 0 => a | 1 => b | _ => c
+def vec4 (a b c d : Rat) : Vec 4 := fun i => match i.val with | 0 => a | 1 => b | 2 => c | _ => d
+def pts2 {d : Nat} (p q : Vec d) : Fin 2 → Vec d := fun i => match i.val with | 0 => p | _ => q
+def pts3 {d : Nat} (p q r : Vec d) : Fin 3 → Vec d := fun i => match i.val with | 0 => p | 1 => q | _ => r
+def pts4 {d : Nat} (p q r t : Vec d) : Fin 4 → Vec d := fun i => match i.val with | 0 => p | 1 => q | 2 => r | _ => t
+
+/-- a segment, a triangle of negative orientation and a tetrahedron with rational vertices -/
+def exSeg : Fin 2 → Vec 1 := pts2 (vec1 (1/2)) (vec1 2)
+def exTri : Fin 3 → Vec 2 := pts3 (vec2 0 0) (vec2 (1/2) 2) (vec2 (3/2) (1/4))
+def exTet : Fin 4 → Vec 3 := pts4 (vec3 0 0 0) (vec3 1 0 (1/2)) (vec3 (1/4) 1 0) (vec3 0 (1/2) 2)
+def exK1 : Mat 1 1 := fun _ _ => 3/2
+def exK2 : Mat 2 2 := mk2 2 (1/2) (1/2) 1
+def exK3 : Mat 3 3 := mk3 2 (1/2) (1/4) (1/2) 1 0 (1/4) 0 1
+def exS2 : Vec 2 := vec2 1 (-1)
+def exS3 : Vec 3 := vec3 1 (-1) 1
+def exS4 : Vec 4 := vec4 (-1) 1 1 (-1)
+
 end PorepyVerif.C18
